@@ -178,6 +178,7 @@ func c14(ctx *Ctx) {
 	// real expiry, reclamation and listener shutdown through the PacketHandler
 	ctx.Stats.Rule = "part 1: sequences of datagrams written to / read from one association (DNS and non-DNS peers, random spacing) through the real natconn over a PacketConn that records SetReadDeadline; deadlines compared with the timer model (40 ms tolerance); part 2: the UDP loopback scenario with idle periods longer than the NAT timeout and listener shutdown: removals counted; non-trivial = distinct op sequences, at least one fast close must occur"
 	cUDPInto(ctx, "C14", 40, shard+1)
+	udpDNSFastClose(ctx, "C14")
 	// part 3: descriptors. The UDP barrage of the C18 child (a process of its own, no garbage
 	// collection, so a finalizer cannot close a forgotten socket): after the listener is shut down
 	// every outbound socket of every association must be closed and every entry reported removed
